@@ -190,7 +190,9 @@ void COSyncProdActivate(CO_SYNC *sync)
 
     time = (sync->Cycle / 100);
     if (time > 0) {
-        ticks = COTmrGetTicks(&node->Tmr, time, CO_TMR_UNIT_100US);
+        /* the time argument is limited to 16bit: split off the seconds */
+        ticks  = COTmrGetTicks(&node->Tmr, (uint16_t)(time % 10000u), CO_TMR_UNIT_100US);
+        ticks += COTmrGetTicks(&node->Tmr, (uint16_t)10000u, CO_TMR_UNIT_100US) * (time / 10000u);
         sync->Tmr = COTmrCreate(&node->Tmr,
             ticks,
             ticks,
